@@ -414,6 +414,7 @@ struct OvOp {
     std::string name;
     std::function<void(SS &)> call;
     std::string appended;
+    std::function<std::string(const std::string &)> dyn = nullptr;  // appended text as a function of the current content
 };
 
 struct OverloadSys : StreamBase {
@@ -494,6 +495,12 @@ struct OverloadSys : StreamBase {
         ov.push_back(OvOp{"<< char NUL", [](SS &s) { s << '\0'; }, std::string(1, '\0')});
         ov.push_back(OvOp{"append(with embedded NUL, 3)", [](SS &s) { s.append("a\0b", 3); }, std::string("a\0b", 3)});
         ov.push_back(OvOp{"append(cstr)", [](SS &s) { s.append("auto-sized"); }, "auto-sized"});
+        // the source is the stream's own buffer (append uses an overlap-safe move, so this is meant to work)
+        ov.push_back(OvOp{"append(own raw_buffer(), size())", [](SS &s) { s.append(s.raw_buffer(), s.size()); }, "", [](const std::string &m) { return m; }});
+        ov.push_back(OvOp{"append(own raw_buffer() + size/2, size - size/2)", [](SS &s) { s.append(s.raw_buffer() + s.size() / 2, s.size() - s.size() / 2); }, "",
+                          [](const std::string &m) { return m.substr(m.size() / 2); }});
+        ov.push_back(OvOp{"append(own raw_buffer(), min(size, 7))", [](SS &s) { s.append(s.raw_buffer(), s.size() < 7 ? s.size() : 7); }, "",
+                          [](const std::string &m) { return m.substr(0, 7); }});
         ov.push_back(OvOp{"append(nullptr)", [](SS &s) { s.append(nullptr); }, ""});
         ov.push_back(OvOp{"append_char('z', 257)", [](SS &s) { s.append_char('z', 257); }, std::string(257, 'z')});
         ov.push_back(OvOp{"append_char('z', 0)", [](SS &s) { s.append_char('z', 0); }, ""});
@@ -557,8 +564,9 @@ struct OverloadSys : StreamBase {
                     LIB(a->truncate(t));
                     model[0].resize(t);
                 } else {
+                    std::string add = o.dyn ? o.dyn(model[0]) : o.appended;
                     LIB(o.call(*a));
-                    model[0] += o.appended;
+                    model[0] += add;
                 }
             }
         });
